@@ -40,6 +40,8 @@ def check_normalize(ctx):
         if isinstance(s, ast.Assign) and isinstance(s.targets[0], ast.Tuple) and isinstance(s.value, ast.Tuple):
             for t, v in zip(s.targets[0].elts, s.value.elts):
                 binds[ast.unparse(t)] = v
+        elif isinstance(s, ast.Assign) and len(s.targets) == 1 and isinstance(s.targets[0], ast.Name):
+            binds[s.targets[0].id] = s.value
     # identify roles: the names bound to <d>.boxes[i], <d>.boxes[i+1], <d>.offsets[i], <d>.offsets[i+1]
     roles = {}
     for name, v in binds.items():
@@ -192,8 +194,13 @@ def check_foliate(ctx):
     last, dg = iro.args.args[0].arg, iro.args.args[1].arg
     roles = {}
     for s in iro.body:
-        if isinstance(s, ast.Assign) and isinstance(s.targets[0], ast.Tuple):
-            for t, v in zip(s.targets[0].elts, s.value.elts):
+        pairs = []
+        if isinstance(s, ast.Assign) and isinstance(s.targets[0], ast.Tuple) and isinstance(s.value, ast.Tuple):
+            pairs = list(zip(s.targets[0].elts, s.value.elts))
+        elif isinstance(s, ast.Assign) and len(s.targets) == 1 and isinstance(s.targets[0], ast.Name):
+            pairs = [(s.targets[0], s.value)]
+        if pairs:
+            for t, v in pairs:
                 if isinstance(v, ast.Subscript) and ast.unparse(v.value) in (dg + ".offsets", dg + ".boxes"):
                     k = 0 if ast.unparse(v.slice) == last else 1 if ast.unparse(v.slice) == last + " + 1" else None
                     roles[ast.unparse(t)] = (ast.unparse(v.value).split(".")[1], k)
